@@ -300,6 +300,12 @@ func (rw *rewriter) file(f *ast.File) {
 		case rw.rel == "lib/query/processor.go" && fd.Name.Name == "ExecuteStatement":
 			stmt = &ast.ExprStmt{X: shimCall("vfs", "Point", &ast.BasicLit{Kind: token.STRING, Value: `"stmt"`})}
 			rw.hit("point", "vfs")
+		case rw.rel == "lib/query/error.go" && fd.Name.Name == "NewSignalReceived" && fd.Recv == nil:
+			// the application's signal handler builds this error right before it cancels the run: the process-mode
+			// controller waits for it after sending a signal, so that "the signal was delivered before point k" does
+			// not depend on how quickly the handler goroutine gets a processor
+			stmt = &ast.ExprStmt{X: shimCall("vfs", "SignalSeen")}
+			rw.hit("point", "vfs")
 		case rw.rel == "lib/value/pool.go" && fd.Name.Name == "Discard" && fd.Recv == nil && len(fd.Type.Params.List) == 1 && len(fd.Type.Params.List[0].Names) == 1:
 			stmt = &ast.ExprStmt{X: shimCall("vrt", "OnDiscard", ast.NewIdent(fd.Type.Params.List[0].Names[0].Name))}
 			rw.hit("point", "vrt")
